@@ -1054,7 +1054,8 @@ def check_index_table(case, rec):
             start, length = int(idx[e, c, 0]), int(idx[e, c, 1])
             require(0 <= start and 0 <= length and start + length <= rows[key],
                     "[index] event %d table %s: (start, length) = (%d, %d) but the table has %d "
-                    "rows", e, key, start, length, rows[key])
+                    "rows%s", e, key, start, length, rows[key],
+                    " [index row left behind by a rejected add]" if e >= len(records) else "")
             if length:
                 used.append((start, start + length, e))
         used.sort()
@@ -1125,6 +1126,13 @@ def classify_len(case, exc):
     return None
 
 
+def classify_index(case, exc):
+    m = _msg(exc)
+    if m.startswith("[index]") and "[index row left behind by a rejected add]" in m:
+        return "rejected_add_leaves_phantom_event"
+    return None
+
+
 def classify_thrown(case, exc):
     m = _msg(exc)
     if m.startswith("[thrown]") and "[= accepted + calls rejected after the particle table]" in m:
@@ -1177,7 +1185,8 @@ PROPERTY = Property(
                  rule=_RULE + " with malformed add() calls interleaved; raw /event_indices: "
                  "every (start,length) inside its table, rows of different events disjoint, "
                  "particle row count per event",
-                 floors={"rejected_late": 0.2, "rejected_between_accepted": 0.15}),
+                 floors={"rejected_late": 0.15, "rejected_between_accepted": 0.1},
+                 classify=classify_index, shrink_cap=(60, 300)),
         SubCheck("reject_raises", history_cases(faults=True), check_raises,
                  quick=200, thorough=10000,
                  rule=_RULE + " with malformed add() calls (missing rays/polarizations, "
